@@ -298,6 +298,12 @@ func runC17(c *Ctx) {
 	c.Note("model", map[string]string{"collector": m.T, "records": m.acT, "start_time_field": m.timeField, "open_count_field": m.cntField, "start_entries": names(m.starts), "stop_entries": names(m.stops)})
 	ruleClock(c, m, "CLOCK")
 	ruleKeyAddr(c, m, "PAIR")
+	// every UDP tunnel that was started is stopped: the association's removal is reported exactly once, whoever ends it
+	ruleTeardown(c, "STOPCALL")
+	ruleSoleDeleter(c)
+	// scrapes and traffic exclude each other (a scrape under a read lock runs concurrently with another scrape: both add
+	// the same period)
+	ruleGuardedTypes(c, "RACEFREE", []string{m.T, m.acT}, 1, 3)
 
 	rulePair(c, m)
 	ruleReset(c, m)
